@@ -181,6 +181,7 @@ def run(tier, seed):
         # decision coverage: derivations are sampled until (decision point, choice, next token) triples saturate; every
         # sentence that adds a triple is compared, with three single-token mutations of it
         seen_cov = set()
+        covering = []
         kept = 0
         rc = random.Random(seed + 2)
         for i in range(20000 if quick else 400000):
@@ -189,6 +190,7 @@ def run(tier, seed):
                 continue
             seen_cov |= cov
             kept += 1
+            covering.append(list(kinds))
             variants = [("decision", kinds)] + [("decision-mut-%s" % o, k) for o, k in (mutate(rc, kinds, ntypes) for _ in range(3))]
             for kind, ks in variants:
                 text = render(ks, tab, rc)
@@ -201,6 +203,23 @@ def run(tier, seed):
                     break
             if len(res.violations) > 5:
                 break
+        # every single-token deletion of the shortest covering sentences (a parser that silently skips a mandatory token accepts one of these)
+        budget = 2500 if quick else 60000
+        done = 0
+        for ks in sorted(covering, key=len):
+            if done >= budget or len(res.violations) > 5:
+                break
+            for pos in range(len(ks) - 1):
+                text = render(ks[:pos] + ks[pos + 1:], tab, rc)
+                if text is None:
+                    continue
+                done += 1
+                try:
+                    ok_p &= compare_parser(res, model, impl, gr, text, "decision-delete-every")
+                except fw.ModelError as e:
+                    res.oblige("model answers RECOG", "correspondence", False, str(e)[:200])
+                    break
+        res.extra["systematic_deletions"] = done
         res.extra["decision_triples_covered"] = len(seen_cov)
         res.extra["decision_covering_sentences"] = kept
         t_end = time.time() + (60 if quick else 1500)
